@@ -308,6 +308,16 @@ func Universe(name string, size string, seed int64) []RawKey {
 		u = append(u, rp("aaaaaaaaaa"), rp(""), rp("A"))
 		return u
 
+	case "textskip":
+		// collation, closed: two pairs whose shared sort-key paths are EXACTLY as long as the whole sort keys of the absent
+		// runs aaa (19 bytes) and aaaaa (29 bytes): the optimistic skip arrives precisely at the end of the probed key
+		u := []RawKey{rk(strings.Repeat("a", 9) + "b"), rk(strings.Repeat("a", 9) + "c"), rk(strings.Repeat("a", 14) + "b"), rk(strings.Repeat("a", 14) + "c")}
+		for n := 1; n <= 8; n++ {
+			u = append(u, rp(strings.Repeat("a", n)))
+		}
+		u = append(u, rp(""), rp("b"))
+		return u
+
 	case "textnfd":
 		// collation: stored keys that are NOT in composed normal form (combining accents, conjoining jamo, the Angstrom and
 		// Ohm signs); their composed spellings are absent keys. What the tree hands back must be the bytes that were inserted.
